@@ -147,8 +147,13 @@ def cells(tier):
             yield ("I", i, dt)
     n3 = sum(1 for _ in catalogue.linalg_cases(tier))
     for i in range(n3):
-        for dt in ("float32", "int64"):
+        for dt in ("float32", "int64", "bool"):
             yield ("L", i, dt)
+    # float16 reductions over many elements (NumPy accumulates pairwise / in a wider type; a naive float16 running sum overflows or stalls)
+    for r in ("sum", "mean", "var", "std", "prod", "cumsum", "max"):
+        for which in ("1000x100", "4096x0.1", "2x600x55"):
+            for form in ("func", "method", "np"):
+                yield ("R16", r, which, form)
 
 
 _CAT = {}
@@ -466,6 +471,16 @@ def check(cell):
             if rm[1][1].shape != rn[1][1].shape or not np.array_equal(rm[1][1], rn[1][1]):
                 return (pre + "value", "returned value differs from numpy")
         return None
+    if kind == "R16":
+        _, r, which, form = cell
+        x = {"1000x100": lambda: np.full(1000, 100.0, dtype=np.float16), "4096x0.1": lambda: np.full(4096, 0.1, dtype=np.float16),
+             "2x600x55": lambda: np.full((2, 600), 55.0, dtype=np.float16)}[which]()
+        kwargs = {"axis": -1} if r == "cumsum" or x.ndim == 2 else {}
+        if form == "func":
+            return compare(lambda: getattr(mg, r)(T(x), **kwargs), lambda: getattr(np, r)(x, **kwargs), lambda: getattr(mg, r)(T(x), **kwargs))
+        if form == "np":
+            return compare(lambda: getattr(np, r)(T(x), **kwargs), lambda: getattr(np, r)(x, **kwargs), None)
+        return compare(lambda: getattr(T(x), r)(**kwargs), lambda: getattr(x, r)(**kwargs), lambda: getattr(T(x), r)(**kwargs))
     if kind == "W":
         _, fn, dt, sc, form = cell
         scv = {"0.1": 0.1, "1.1": 1.1, "3": 3, "True": True, "300": 300}[sc]
@@ -560,7 +575,7 @@ def outcome(cell):
 
 
 def signature(cell, f):
-    return base.stable_hash((cell[0], cell[1] if cell[0] in ("U", "B", "O", "O1", "R", "SEQ", "SQ", "W", "IP", "OUT") else (cell[4] if cell[0] == "P" else ""), f[0], f[1][:24]))
+    return base.stable_hash((cell[0], cell[1] if cell[0] in ("U", "B", "O", "O1", "R", "SEQ", "SQ", "W", "IP", "OUT", "R16") else (cell[4] if cell[0] == "P" else ""), f[0], f[1][:24]))
 
 
 def script(cell, f):
